@@ -392,6 +392,35 @@ def tag_forms(run, prefixes, b, conf):
 def replay(obj):
     r = obj['replay']
     b = build.build()
+    eng = r.get('engine')
+    if eng == 'E1-sweep' and 'form' in r:
+        cid, nth, form = r['client'], r['nth'], r['form']
+        with e1.Server(r['conf'], builddir=b) as srv:
+            C = '%d C 10.0.0.1 1111 10.9.9.9 6667\n' % cid
+            hist = ([('L', (C + '%d D\n' % cid) * (nth - 1))] if nth > 1 else []) + [('L', C), ('L', '%d P :+x acctA passA\n' % cid)]
+            hit = 0
+            for what in ('NO stale refusal', 'OK stale:1'):
+                line = '-1 X login.svc %s :%s\n' % (form, what)
+                res, status, err, ex = srv.trace(hist + [('L', line)], 0)
+                print('%-50r -> %s %r' % (line, status, res[-1].out if res else None))
+                hit |= bool(status != 'ok' or (res and res[-1].out))
+        print(obj['what'])
+        print('REPRODUCED' if hit else 'not reproduced')
+        return 1 if hit else 0
+    if eng == 'E1-trace' and 'lines' in r and 'variant' not in r:
+        with e1.Server(r['conf'], builddir=b) as srv:
+            evs = [('L', l + '\n') for l in r.get('context', [])] + [('L', l if l.endswith('\n') else l + '\n') for l in r['lines']]
+            res, status, err, ex = srv.trace(evs, 0)
+            for e, x in zip(evs, res):
+                print('%-60r -> %r' % (e[1], x.out))
+            print('status:', status, (err.strip().splitlines() or [''])[0][:200])
+        print(obj['what'])
+        return 1
+    if eng in ('E1-sweep', 'E3', 'E1-direct') or (eng and eng not in ('E1', 'E1-merge')):
+        print(obj['what'])
+        print(json.dumps({k: v for k, v in r.items() if k not in ('conf', 'stderr')}, indent=1)[:3000])
+        print('(deterministic enumeration: re-run `bin/check %s quick` to reproduce; the configuration used is in the replay file)' % obj.get('property', ''))
+        return 1
     if r.get('engine') == 'E1-merge':
         with e1.Server(r['conf'], builddir=b) as srv:
             ser = r['serial_b']
